@@ -165,7 +165,7 @@ fn main() {
     let mut cs = Cases::new(&a.out, "Generated Wire_Model C08_Model");
     cs.shard = 30;
     sm.rule = "random engines of 6-40 rules (all network shapes of gen::rule plus tags, redirects with resources, csp, generichide, regex; cosmetic generic/specific/procedural/scriptlet/exception rules), debug/optimize on/off, serializer tags and loader tags drawn independently, 14 requests + 28 hosts + class/id queries compared under 5 tag sets; 1 in 4 lists keeps its removeparam rules (F8 class), 1 in 5 is parsed with permission bits (F9 class). Correspondence non-trivial = the predicted reloaded state has at least 4 non-empty containers".into();
-    let n = 140 * a.scale;
+    let n = 240 * a.scale;
     for i in 0..n {
         let n_net = r.range(3, 25);
         let n_cos = r.range(3, 15);
@@ -215,6 +215,25 @@ fn main() {
         );
         cs.stat(if keep_rp { "state_with_removeparam" } else if perm != 0 { "state_with_permissions" } else { "state_plain" });
         cs.case(expr, json!({"rules": c.rules, "debug": debug, "optimize": optimize, "perm": perm, "t0": c.t0, "tl": c.tl, "bytes": bytes.len()}), nonempty >= 4);
+        if i % 2 == 1 {
+            // the class/id query itself: model on the dumped (shuffled) cosmetic state vs the engine
+            let mut excs: Vec<String> = vec![format!(".{}", r.pick(CLASSES)), format!("#{}", r.pick(IDS))];
+            for (_, v) in cd.complex_class_rules.iter().chain(cd.complex_id_rules.iter()) {
+                if r.chance(1, 3) {
+                    excs.push(v[r.below(v.len())].clone());
+                }
+            }
+            let set: std::collections::HashSet<String> = excs.iter().cloned().collect();
+            for eng in [&e, &l] {
+                let got = eng.hidden_class_id_selectors(CLASSES.iter(), IDS.iter(), &set);
+                let cl: Vec<String> = CLASSES.iter().map(|s| s.to_string()).collect();
+                let ids: Vec<String> = IDS.iter().map(|s| s.to_string()).collect();
+                cs.stat("class_id_query");
+                cs.case(
+                    format!("list_eqb str_eqb (hidden_class_id_selectors {} {} {} {}) {}", coq_cosmetic(&mut r, eng), cstrs(&cl), cstrs(&ids), cstrs(&excs), cstrs(&got)),
+                    json!({"rules": c.rules, "exceptions": excs, "impl": got}), !got.is_empty());
+            }
+        }
         if i % 2 == 0 {
             let has_mod = dump_engine_blocker(&e).lists.iter().any(|(_, l)| l.iter().any(|(_, b)| b.iter().any(|f| f.modifier_option.is_some())));
             cs.stat("rules_ok_on_impl_state");
